@@ -69,14 +69,14 @@ Proof.
     { rewrite Hsp. apply Forall_app. split; auto.
       apply Forall_forall. intros x Hx. apply in_map_iff in Hx as [y [<- _]]. apply styled_restyle. }
     now apply Forall_app in H as [H _]. }
-  assert (Hres : (let (gs0, cur) := split_groups 0 None out in
-                  match cur with
-                  | Some _ => (out, tr)
-                  | None => if sort_declaration c
-                            then join_groups [] true (sort_groups (add_trail tr (attach [] None gs0)))
-                            else (out, tr)
+  assert (Hres : (let (gs0, rest0) := chunks 0 [] out in
+                  match rest0 with
+                  | _ :: _ => (out, tr)
+                  | [] => if sort_declaration c
+                          then join_groups [] true (sort_groups (detach gs0 tr))
+                          else (out, tr)
                   end) = (out, tr)).
-  { destruct (split_groups 0 None out) as [gs0 cur]. destruct cur; auto. now rewrite Hsd. }
+  { destruct (chunks 0 [] out) as [gs0 rest0]. destruct rest0; auto. now rewrite Hsd. }
   rewrite Hres in Hn. subst n.
   (* second application *)
   unfold norm. rewrite to_items_of_items. unfold norm_items.
